@@ -178,20 +178,35 @@ func GenProgram(r *core.Rand, ks *KeySpace, tagPrefix string, o GenOpts) []Op {
 		n++
 		return GenVal(r, fmt.Sprintf("%s/%d|", tagPrefix, n), o.BigValues)
 	}
+	// a put whose log entry is exactly one record payload (32768 bytes) long, or one byte to either side
+	put := func() Op {
+		k := ks.Pick(r)
+		v := val()
+		if o.BigValues && r.Chance(5) {
+			l := 32768 - 17 - len(k) + r.Range(-1, 1)
+			for len(v) < l {
+				v = append(v, byte('B'+len(v)%23))
+			}
+			if len(v) > l && l > 16 {
+				v = v[:l]
+			}
+		}
+		return Op{Kind: "put", Key: k, Val: v}
+	}
 	sub := func(maxOps int, withGet bool) []Op {
 		var s []Op
 		m := r.Range(1, maxOps)
 		for i := 0; i < m; i++ {
 			switch r.Pick(6, 3, 2) {
 			case 0:
-				s = append(s, Op{Kind: "put", Key: ks.Pick(r), Val: val()})
+				s = append(s, put())
 			case 1:
 				s = append(s, Op{Kind: "del", Key: ks.Pick(r)})
 			case 2:
 				if withGet {
 					s = append(s, Op{Kind: "get", Key: ks.Pick(r)})
 				} else {
-					s = append(s, Op{Kind: "put", Key: ks.Pick(r), Val: val()})
+					s = append(s, put())
 				}
 			}
 		}
@@ -217,7 +232,7 @@ func GenProgram(r *core.Rand, ks *KeySpace, tagPrefix string, o GenOpts) []Op {
 	for len(prog) < o.NOps {
 		switch r.Pick(40, 14, 16, wTx, wBatch, o.Maintenance, wScan) {
 		case 0:
-			prog = append(prog, Op{Kind: "put", Key: ks.Pick(r), Val: val()})
+			prog = append(prog, put())
 		case 1:
 			prog = append(prog, Op{Kind: "del", Key: ks.Pick(r)})
 		case 2:
